@@ -47,6 +47,8 @@ sCtl == Str(<<1>>)       sQuote == Str(<<34>>)   sa1 == Str(<<97, 1>>)
 sTrue == Str(<<116, 114, 117, 101>>)   s12 == Str(<<49, 50>>)
 sNum15 == Str(<<45, 49, 46, 53, 101, 50>>)   sNumBig == Str(<<49, 56, 52, 52, 54, 55, 52, 52, 48, 55, 51, 55, 48, 57, 53, 53, 49, 54, 49, 54>>)
 
+kd0 == <<48>>  kd1 == <<49>>  kdm1 == <<45, 49>>      \* keys that read as integers
+sHigh == Str(<<239, 189, 158>>)                      \* U+FF5E: above the surrogates in UTF-16 code units, below U+1F600 in code points and UTF-8
 kEmpty == <<>>  ka == <<97>>  kA == <<65>>  kb == <<98>>  kab == <<97, 98>>  kE == <<195, 169>>  kB == <<66>>
 
 ----------------------------------------------------------------------------
@@ -68,6 +70,7 @@ ObjValsSmall == {Null, u1, u256, sab}
 
 \* adjacent siblings that are "twins": equal by value in different encodings (scalars and containers), or
 \* of different types with the very same payload bytes
+DigitKeyDocs == {Obj(<< <<kdm1, u1>>, <<kd0, sab>>, <<kd1, Arr(<<u1, u2>>)>> >>), Obj(<< <<ka, Obj(<< <<kd1, sa>> >>)>> >>), Arr(<<Obj(<< <<kd0, True>> >>)>>)}
 TwinDocs == {Arr(<<Arr(<<u1>>), Arr(<<f1>>)>>), Arr(<<Obj(<< <<ka, f0>> >>), Obj(<< <<ka, fm0>> >>)>>), Arr(<<Arr(<<i1>>), Arr(<<u1>>), sab>>),
              Obj(<< <<ka, Arr(<<Arr(<<f1, u1>>), Arr(<<u1, f1>>)>>)>> >>),
              Arr(<<sPA, u65>>), Arr(<<u65, sPA, u65>>), Arr(<<u0, sNul>>), Arr(<<sNul, u0>>), Arr(<<Null, sEmpty, True, sEmpty>>),
@@ -83,7 +86,7 @@ ExtraDocs == {Obj(<< <<kA, u1>>, <<kB, sab>>, <<ka, Null>> >>), Obj(<< <<kAb, u1
               \* smallest nested containers (one payload-free element; the only string of the document inside them)
               Arr(<<u1, Arr(<<sEmpty>>)>>), Obj(<< <<ka, Arr(<<sEmpty>>)>> >>), Arr(<<Arr(<<Arr(<<sEmpty>>)>>)>>),
               Arr(<<Arr(<<True>>), Obj(<< <<kEmpty, Null>> >>), Arr(<<Null>>)>>), Obj(<< <<kb, Obj(<< <<kEmpty, sEmpty>> >>)>> >>)}
-             \cup TwinDocs
+             \cup TwinDocs \cup DigitKeyDocs
 
 \* level-1 documents: containers of atoms
 L1(atoms, keys, ovals, w) == Arrays(atoms, w) \cup Objects(keys, ovals, w)
@@ -111,7 +114,9 @@ PairDocs ==
         \* the ends of the integer ranges against the floats next to them; payload twins; keys that concatenate alike
         umax, f2p64, imin, fm2p63, imax, f2p63, Arr(<<umax>>), Arr(<<f2p64>>), Arr(<<sPA, u65>>), Arr(<<u65, sPA>>), Arr(<<u65>>), Arr(<<sPA>>),
         Arr(<<u0, sNul>>), Arr(<<sNul>>),
-        Obj(<< <<ka, u1>>, <<<<98, 99>>, u2>> >>), Obj(<< <<kab, u1>>, <<<<99>>, u2>> >>)}
+        Obj(<< <<ka, u1>>, <<<<98, 99>>, u2>> >>), Obj(<< <<kab, u1>>, <<<<99>>, u2>> >>),
+        \* opposite booleans under one key; a string ordered differently by UTF-16 units, code points
+        Obj(<< <<ka, False>> >>), Obj(<< <<ka, False>>, <<kb, True>> >>), sHigh, Arr(<<sHigh>>), Arr(<<sSmile>>), Arr(<<sE>>)}
 
 \* decimal lexemes for the floats of the universes (checked by BigNat!IsRN wherever they are used)
 FL == << <<f1.b, <<49, 46, 48>> >>, <<f15.b, <<49, 46, 53>> >>, <<fm0.b, <<45, 48, 46, 48>> >>, <<f0.b, <<48, 46, 48>> >>,
@@ -194,6 +199,8 @@ KPaths(d, fuel) ==
             UNION {{<<[n |-> d.o[j][1]]>> \o p : p \in KPaths(d.o[j][2], fuel - 1)} : j \in 1..Len(d.o)}
             \cup UNION {{<<[q |-> d.o[j][1]]>> \o p : p \in KPaths(d.o[j][2], fuel - 1)} : j \in 1..Len(d.o)}
             \cup {<<[n |-> <<122>>]>>, <<[i |-> 0]>>, <<[n |-> <<122>>], [i |-> 0]>>}
+            \* an integer element never addresses a member, whatever the member is called
+            \cup {<<[i |-> v]>> : v \in {-1, 0, 1}} \cup {<<[i |-> v], [i |-> 0]>> : v \in {-1, 1}}
        [] OTHER -> {<<[i |-> 0]>>, <<[n |-> ka]>>, <<[i |-> -1], [n |-> ka]>>})
 
 KeyLists(d) ==
